@@ -147,7 +147,7 @@ fn run_sched(out: &mut Out, s: &Value) {
     {
         let b = run.rig.swarm.behaviour();
         b.b1.ctl.with(|c| c.handler_protocols = vec!["/probe".to_string()]);
-        b.b2.ctl.with(|c| c.handler_keep_alive = false);
+        b.b2.as_ref().unwrap().ctl.with(|c| c.handler_keep_alive = false);
         b.b3.ctl.with(|c| c.handler_keep_alive = false);
     }
     run.exec(&json!({"c": "dial", "peer": 1, "cond": "Always", "addrs": [1]}));
